@@ -290,7 +290,10 @@ def minimise(spec, fp):
     if cur is None:
         raise HarnessError("violation does not reproduce before minimisation")
     changed = True
-    while changed:
+    import time
+
+    t_end = time.time() + float(os.environ.get("VERIF_MIN_BUDGET_S", "90"))
+    while changed and time.time() < t_end:
         changed = False
         ch = cur["choices"]
         # truncate the tail, then zero individual choices
@@ -304,6 +307,8 @@ def minimise(spec, fp):
                 if ch[i] > 1:
                     cands.append(ch[:i] + [ch[i] - 1] + ch[i + 1 :])
         for c in cands:
+            if time.time() > t_end:
+                break
             try:
                 got = _reproduces(dict(cur, choices=c), fp, P)
             except Exception:
@@ -346,6 +351,7 @@ def make_replay(spec, fp, seed, run_idx):
         "schedule": [],
         "arguments": describe(spec, P),
         "fingerprints": fps,
+        "all_oracles": fps,
         "backend_events": r["n_events"],
         "transient_window": r["transient"][:50],
         "event_log_digest": digest_obj([r["names"], r["outcome"], r["diffs"]]),
@@ -369,7 +375,7 @@ def replay_file(path):
 
 # ------------------------------------------------------------------ driver interface
 
-QUICK_RUNS = 1100
+QUICK_RUNS = 4000
 CHUNK = 10
 CHUNK_TIMEOUT = 900
 THOROUGH_S = 1200
